@@ -133,7 +133,8 @@ FamSN2 == { SN2(le, sd, cd, rb) :
               sd \in { NoD, TetA, TetBx },
               cd \in { Emp, ("broken" :> TetA) @@ ("formed" :> TetC), ("broken" :> TetB) @@ ("formed" :> TetC),
                        ("broken" :> TetBx) @@ ("formed" :> TetC) @@ ("fleeting" :> TBPf),
-                       ("formed" :> TetC), ("broken" :> TetA) },
+                       ("formed" :> TetC), ("broken" :> TetA),
+                       ("broken" :> TetA) @@ ("fleeting" :> TetA) @@ ("formed" :> TetC) },
               rb \in { <<"formed", "broken">>, <<"broken", "formed">>, <<"none", "none">>, <<"fleeting", "none">> } }
 
 (* C13: every placement of distinct ligands, both parities (all n!/|G| classes in every spelling) *)
